@@ -327,6 +327,11 @@ impl<M: Manager, W: From<Object<M>>> Pool<M, W> {
     ///
     /// See [`PoolError`] for details.
     pub async fn timeout_get(&self, timeouts: &Timeouts) -> Result<W, PoolError<M::Error>> {
+        // A recycle timeout that cannot be applied would otherwise be mistaken
+        // for a failed recycle and silently discard healthy idle objects.
+        if self.inner.runtime.is_none() && timeouts.recycle.is_some() {
+            return Err(PoolError::NoRuntimeSpecified);
+        }
         let _ = self.inner.users.fetch_add(1, Ordering::Relaxed);
         let users_guard = DropGuard(|| {
             let _ = self.inner.users.fetch_sub(1, Ordering::Relaxed);
